@@ -221,6 +221,17 @@ type ChildResult struct {
 // lines: "START <id>" / "DONE <id> <json>". A case that was started but not
 // finished when the child died is the witness of a crash.
 func (c *Ctx) RunChild(mode string, args any, timeout time.Duration, extraEnv ...string) *ChildResult {
+	res := c.runChildOnce(mode, args, timeout, extraEnv...)
+	if res.TimedOut {
+		// the wall-clock watchdog is not a verdict: on a loaded machine a healthy batch can exceed it.
+		// One more attempt with three times the budget; a second expiry is reported by the caller as inconclusive.
+		fmt.Printf("note: watchdog (%v) expired in child mode %s (last line: %s); retrying once with %v\n", timeout, mode, res.LastLine, 3*timeout)
+		res = c.runChildOnce(mode, args, 3*timeout, extraEnv...)
+	}
+	return res
+}
+
+func (c *Ctx) runChildOnce(mode string, args any, timeout time.Duration, extraEnv ...string) *ChildResult {
 	self, _ := os.Executable()
 	if c.ChildBin != "" {
 		self = c.ChildBin
